@@ -438,6 +438,16 @@ def R2b_rounding_primitives(run):
                             ("quote::liquidity::try_get_token_a_from_liquidity", "round_up", True), ("quote::liquidity::try_get_token_b_from_liquidity", "round_up", True)):
         fn = K.need_fn(path)
         run.touch(fn)
+        dc = [bi for bi, t in fn.calls() if (callee_path(t) or "").rsplit("::", 1)[-1] == "div_ceil" and not fn.blocks[bi]["c"]]
+        if dc and not _sdk_increment_blocks(fn):
+            # the ceiling taken by the integer primitive: `if round_up { n.div_ceil(d) } else { n / d }` - div_ceil is reachable in
+            # the round-up context only and a plain division in the other
+            fl_up, fl_dn = preach.flow(fn, {param: up}).reachable(), preach.flow(fn, {param: not up}).reachable()
+            plain = [bi for bi, bb in enumerate(fn.blocks) if not bb["c"] and any(st["k"] == "=" and st["rv"].get("bin") == "Div" for st in bb["s"])]
+            ok = all(b in fl_up and b not in fl_dn for b in dc) and any(b in fl_dn for b in plain)
+            run.check("R2b", "incr@sdk:" + path, ok, "SDK %s takes div_ceil outside the round-up context (or has no plain division for the other)" % path, loc=fn.loc(),
+                      detail="%s = %s => div_ceil, else `/`" % (param, up))
+            continue
         check_increment_idiom(run, "R2b", fn, param=param, up=up, inc=_sdk_increment_blocks(fn), tag="sdk:")
     fn = K.need_fn(TK + "try_get_next_sqrt_price_from_a")
     run.touch(fn)
